@@ -13,11 +13,15 @@ def fifo_case(draw, broker):
     foreign = draw(st.booleans())
     mode = draw(st.sampled_from(["drain", "drain", "interleaved", "rejects", "foreign-run"]))
     ops = []
+    # other priority levels in the same queue: first-in first-out is demanded inside each level, whatever the others hold
+    mixed = draw(st.integers(0, 2)) == 0
+    others = [p for p in (0, 5, 9) if p != prio]
 
     def enq(n):
         for _ in range(n):
             t = "tF" if foreign and draw(st.integers(0, 3)) == 0 else "t0"
-            ops.append({"op": "enq", "q": "qf", "topic": t, "prio": prio, "delay": None, "payload": "", "client": "p0"})
+            pr = draw(st.sampled_from([prio, prio] + others)) if mixed else prio
+            ops.append({"op": "enq", "q": "qf", "topic": t, "prio": pr, "delay": None, "payload": "", "client": "p0"})
 
     start = {"op": "start", "q": "qf", "client": "c0", "topics": ["t0"] if foreign or draw(st.booleans()) else None,
              "category": "NORMAL", "max_unacked": draw(st.sampled_from([None, 1, 3]))}
@@ -112,12 +116,13 @@ def run(case: dict) -> Outcome:
             stream.append(("return", e["id"], e))
     seq = [(kind, e["id"] if kind == "enq" else id_) for kind, id_, e in stream]
     matching = {m.id for m in w.msgs.values() if m.topic == "t0"}
-    waiting: list[str] = []  # matching messages currently in the queue, in the order FIFO must serve them
+    levels: dict[int, list[str]] = {}  # per priority: matching messages currently in the queue, in the order FIFO must serve them
     fresh: set[str] = set()  # never returned
     n_match = 0
     for kind, id_ in seq:
         if id_ not in matching:
             continue
+        waiting = levels.setdefault(w.msgs[id_].prio, [])
         if kind == "enq":
             waiting.append(id_)
             fresh.add(id_)
@@ -146,20 +151,24 @@ def run(case: dict) -> Outcome:
                     break
             waiting.remove(id_)
     # everything matching must have been delivered by the end (the history drains the queue)
-    undelivered = [i for i in waiting]
+    undelivered = [i for lv in levels.values() for i in lv]
+    waiting = undelivered
     if undelivered and case["mode"] not in ("rejects", "foreign-run"):
         drained = sum(1 for k, _ in seq if k == "deliver")
         timeouts = sum(1 for e in w.events if e["op"]["op"] == "consume" and e.get("timeout"))
         if timeouts >= 2:
             start = next(o for o in case["ops"] if o["op"] == "start")
             first_un = min(int(i[1:]) for i in undelivered)
-            foreign_ahead = any(m.topic != "t0" and int(m.id[1:]) < first_un for m in w.msgs.values())
+            low_un = min(w.msgs[i].prio for i in undelivered)
+            # a foreign-topic message is served before it: enqueued earlier, or sitting in a higher priority level
+            foreign_ahead = any(m.topic != "t0" and (int(m.id[1:]) < first_un or m.prio > low_un) for m in w.msgs.values())
             out.v("starved", f"{len(undelivered)} matching message(s) never delivered although the consumer kept consuming "
                   f"({drained} deliveries, {timeouts} empty polls): {undelivered[:5]}", broker=case["broker"],
                   foreign_head_of_line=bool(foreign_ahead and start.get("max_unacked") is not None))
     out.nontrivial = n_match >= 3
     out.cls("broker-" + case["broker"], "mode-" + case["mode"], "more-than-10" if n_match > 10 else "up-to-10",
-            "foreign-topics" if any(m.topic != "t0" for m in w.msgs.values()) else "no-foreign")
+            "foreign-topics" if any(m.topic != "t0" for m in w.msgs.values()) else "no-foreign",
+            "several-priorities" if len(levels) > 1 else "one-priority")
     return out
 
 
@@ -171,7 +180,7 @@ CHECK = Check(
     pid="C15",
     level="exploration",
     rule=(
-        "Histories with one consumer and one priority: 1-30 distinguishable immediately deliverable messages (crossing Redis's fetch "
+        "Histories with one consumer, one priority level or (a third of the cases) several levels mixed in one queue: 1-30 distinguishable immediately deliverable messages (crossing Redis's fetch "
         "window of 10), foreign topics interleaved, modes enqueue-all-then-drain / interleaved enqueue+consume with a backlog kept >= 11 / "
         "deliveries rejected or requeued and re-awaited; prefetch limits None/1/3; three brokers. Oracle: a never-returned message is "
         "never delivered while an earlier-enqueued never-returned matching message is still waiting; a returned message is delivered "
